@@ -345,3 +345,333 @@ Proof.
     inversion H. subst a'. cbn -[set_nth] in *. split; [exact L|].
     split; [exact G|]. exists []. split; [rewrite app_nil_r; reflexivity|reflexivity].
 Qed.
+
+(* ---- the event loop ---------------------------------------------------------------------------------- *)
+Lemma ev_loop_lab_inv evs : forall a,
+  lab_inv (a_core a) -> blk_ok a -> Forall ev_ok evs -> Forall ext_by_value evs ->
+  lab_inv (a_core (fst (ev_loop a evs))) /\ blk_ok (fst (ev_loop a evs)).
+Proof.
+  induction evs as [|e r IH]; intros a L B Ok Bv; cbn [ev_loop]; [split; assumption|].
+  inversion Ok as [|? ? Oe Or]. inversion Bv as [|? ? Be Br]. subst.
+  destruct (ev_step a e) as [a1|x] eqn:E; [|split; assumption].
+  destruct (ev_step_lab a e a1 L Oe Be E) as (L1 & _).
+  apply IH; [exact L1|eapply ev_step_blk; eassumption|exact Or|exact Br].
+Qed.
+
+Lemma ev_loop_lab evs : forall a a',
+  lab_inv (a_core a) -> Forall ev_ok evs -> Forall ext_by_value evs ->
+  ev_loop a evs = (a', None) ->
+  grows (a_core a) (a_core a') /\
+  exists new, a_exts a' = a_exts a ++ new /\
+              map_opt (ext_payload (a_core a')) new = Some (flat_map ext_event_payload evs).
+Proof.
+  induction evs as [|e r IH]; intros a a' L Ok Bv H; cbn [ev_loop] in H.
+  - inversion H. subst a'. split; [apply grows_refl; exact (proj1 L)|].
+    exists []. split; [rewrite app_nil_r; reflexivity|reflexivity].
+  - inversion Ok as [|? ? Oe Or]. inversion Bv as [|? ? Be Br]. subst.
+    destruct (ev_step a e) as [a1|x] eqn:E; [|discriminate].
+    destruct (ev_step_lab a e a1 L Oe Be E) as (L1 & G1 & new1 & N1 & P1).
+    destruct (IH a1 a' L1 Or Br H) as (G2 & new2 & N2 & P2).
+    split; [eapply grows_trans; eassumption|].
+    exists (new1 ++ new2). split; [rewrite N2, N1, app_assoc; reflexivity|].
+    cbn [flat_map]. apply map_opt_app; [|exact P2].
+    eapply map_opt_mono; [|exact P1]. intros x y Hx. eapply ext_payload_mono; [exact (proj2 G2)|exact Hx].
+Qed.
+
+Lemma map_opt_nil_inv {A B} (f : A -> option B) r : map_opt f [] = Some r -> r = [].
+Proof. cbn. intro H. inversion H. reflexivity. Qed.
+
+(* ---- set_block ----------------------------------------------------------------------------------------- *)
+Definition stored_ext (c : core) (i : Z) : option (list (Z * key)) :=
+  match aget Z.eqb (blocks c) i with
+  | None => None
+  | Some blk =>
+    (* exactly the expression decode (Model/Seq.v) evaluates for the d_ext field *)
+    if 0 <? nth 6 blk 0 then dec_ext c (S (length (ldata (ext_l c)))) (nth 6 blk 0) else Some []
+  end.
+
+Lemma sbc_lab_inv abs_fix c i evs hint :
+  lab_inv c -> Forall ev_ok evs -> Forall ext_by_value evs ->
+  lab_inv (fst (fst (set_block_core abs_fix c i evs hint))).
+Proof.
+  intros L Ok Bv.
+  pose proof (sbc_core_inv abs_fix c i evs hint (proj1 L)) as I'.
+  pose proof (sbc_ext abs_fix c i evs hint (proj1 (proj2 L))) as W'.
+  unfold set_block_core in *.
+  set (a0 := mkAcc c false [0; 0; 0; 0; 0; 0; 0] qc0 [chk0; chk0; chk0] []) in *.
+  assert (B0 : blk_ok a0) by (split; reflexivity).
+  destruct (ev_loop_lab_inv evs a0 L B0 Ok Bv) as [(_ & _ & K1 & K2 & K3 & X) _].
+  destruct (ev_loop a0 evs) as [a eo]. cbn [fst] in *.
+  destruct eo as [x|].
+  - cbn [fst] in *. repeat (split; try assumption).
+  - destruct (a_exts a) as [|x xs].
+    + destruct (check_channels abs_fix (a_core a) i (a_dur a) 0 (a_chk a)); cbn [fst] in *;
+        (split; [exact I'|split; [exact W'|]]); cbn; repeat (split; try assumption); apply X.
+    + destruct (ext_register hint (ext_l (a_core a)) (x :: xs)) as [el eid].
+      destruct (check_channels abs_fix (a_core a <| ext_l := el |>) i (a_dur a) 0 (a_chk a)); cbn [fst] in *;
+        (split; [exact I'|split; [exact W'|]]); cbn; repeat (split; try assumption); apply X.
+Qed.
+
+Lemma stored_ext_set c i blk d ext :
+  (if 0 <? nth 6 blk 0 then dec_ext c (S (length (ldata (ext_l c)))) (nth 6 blk 0) else Some []) = Some ext ->
+  stored_ext (c <| blocks := aset Z.eqb (blocks c) i blk |> <| durs := d |>) i = Some ext.
+Proof.
+  intro H. unfold stored_ext.
+  change (blocks (c <| blocks := aset Z.eqb (blocks c) i blk |> <| durs := d |>)) with (aset Z.eqb (blocks c) i blk).
+  rewrite agetZ_aset_same.
+  change (ext_l (c <| blocks := aset Z.eqb (blocks c) i blk |> <| durs := d |>)) with (ext_l c).
+  destruct (0 <? nth 6 blk 0); [|exact H].
+  rewrite (dec_ext_cong c); [exact H|unfold same_libs; cbn; repeat split].
+Qed.
+
+Theorem set_block_ext_roundtrip : forall abs_fix c i evs hint c' clr,
+  lab_inv c -> Forall ev_ok evs -> Forall ext_by_value evs ->
+  set_block_core abs_fix c i evs hint = (c', clr, None) ->
+  exists ext, stored_ext c' i = Some ext /\ Permutation ext (flat_map ext_event_payload evs).
+Proof.
+  intros abs_fix c i evs hint c' clr L Ok Bv H. unfold set_block_core in H.
+  set (a0 := mkAcc c false [0; 0; 0; 0; 0; 0; 0] qc0 [chk0; chk0; chk0] []) in *.
+  assert (B0 : blk_ok a0) by (split; reflexivity).
+  destruct (ev_loop_lab_inv evs a0 L B0 Ok Bv) as [La Ba].
+  destruct (ev_loop a0 evs) as [a eo] eqn:EL. cbn [fst] in La, Ba.
+  destruct eo as [x|]; [inversion H|].
+  destruct (ev_loop_lab evs a0 a L Ok Bv EL) as (G & new & N & P). cbn [a_exts a0 app] in N.
+  rewrite <- N in P. clear new N.
+  destruct Ba as [Bl Bn].
+  destruct (a_blk a) as [|b0 [|b1 [|b2 [|b3 [|b4 [|b5 [|b6 [|b7 rr]]]]]]]] eqn:EB; try discriminate Bl.
+  cbn in Bn. subst b6.
+  destruct (a_exts a) as [|x xs] eqn:EX.
+  - destruct (check_channels abs_fix (a_core a) i (a_dur a) 0 (a_chk a)); [inversion H|].
+    injection H as Hc Hclr. subst c' clr.
+    apply map_opt_nil_inv in P. rewrite P.
+    exists []. split; [|constructor].
+    apply stored_ext_set. reflexivity.
+  - pose proof (proj1 (proj2 La)) as Wa.
+    destruct (ext_register_spec hint (ext_l (a_core a)) (x :: xs) Wa) as (A1 & A2 & A3 & A4 & A5 & A6).
+    destruct (ext_roundtrip hint (a_core a) (x :: xs) Wa) as [R1 R2].
+    destruct (ext_register hint (ext_l (a_core a)) (x :: xs)) as [el eid]. cbn [fst snd] in *.
+    destruct (check_channels abs_fix (a_core a <| ext_l := el |>) i (a_dur a) 0 _); [inversion H|].
+    injection H as Hc Hclr. subst c' clr.
+    (* the registered id is positive *)
+    assert (Hpos : 0 < eid).
+    { destruct A4 as [->|V].
+      - rewrite ext_list_unfold in A5. cbn in A5. inversion A5 as [A5'].
+        rewrite <- A5' in R2. apply Permutation_nil in R2. discriminate.
+      - destruct (lib_get el eid) as [k|] eqn:E; [|congruence].
+        destruct A1 as (_ & W1 & _). destruct (W1 _ _ E). lia. }
+    destruct (map_opt_perm (ext_payload (a_core a)) _ _ (Permutation_sym R2) _ P) as (ext & E1 & E2).
+    exists ext. split; [|apply Permutation_sym; exact E2].
+    change (stored_ext ((a_core a <| ext_l := el |>)
+              <| blocks := aset Z.eqb (blocks (a_core a <| ext_l := el |>)) i [b0; b1; b2; b3; b4; b5; eid] |>
+              <| durs := aset Z.eqb (durs (a_core a)) i (a_dur a) |>) i = Some ext).
+    apply stored_ext_set.
+    cbn [nth set_nth]. apply Z.ltb_lt in Hpos. rewrite Hpos.
+    change (ext_l (a_core a <| ext_l := el |>)) with el.
+    rewrite R1. exact E1.
+Qed.
+
+(* ---- whole histories ------------------------------------------------------------------------------------ *)
+Definition op_lab_ok (o : op) : Prop :=
+  match o with
+  | AddBlock evs _ | SetBlock _ evs _ => Forall ev_ok evs /\ Forall ext_by_value evs
+  | Load c => lab_inv c
+  | _ => True
+  end.
+
+Lemma dedup_core_lpart r1 r2 r3 r4 c c' : dedup_core r1 r2 r3 r4 c = Some c' -> lpart c' = lpart c.
+Proof.
+  intro H. unfold dedup_core in H.
+  destruct (lib_remove_duplicates key_eqb r1 (shape_l c)) as [sl smap].
+  destruct (remap_rows (ldata (grad_l c)) (grad_l c)
+              (fun id => match lib_type (grad_l c) id with Some t => t =? tag_g | None => false end)
+              (remap_grad_row smap)) as [gl1|]; cbn [opt_bind] in H; [|discriminate].
+  destruct (remap_rows (ldata (rf_l c)) (rf_l c) (fun _ => true) (remap_rf_row smap)) as [rl1|];
+    cbn [opt_bind] in H; [|discriminate].
+  destruct (lib_remove_duplicates key_eqb r2 gl1) as [gl2 gmap].
+  destruct (remap_blocks (blocks c) [2%nat; 3%nat; 4%nat] gmap) as [b1|]; cbn [opt_bind] in H; [|discriminate].
+  destruct (lib_remove_duplicates key_eqb r3 rl1) as [rl2 rmap].
+  destruct (remap_blocks b1 [1%nat] rmap) as [b2|]; cbn [opt_bind] in H; [|discriminate].
+  destruct (lib_remove_duplicates key_eqb r4 (adc_l c)) as [al2 amap].
+  destruct (remap_blocks b2 [5%nat] amap) as [b3|]; cbn [opt_bind] in H; [|discriminate].
+  inversion H. reflexivity.
+Qed.
+
+Lemma op_lab_ok_wf o : op_lab_ok o -> ops_wf [o].
+Proof. destruct o; cbn; try tauto. intros (I & _). split; [exact I|exact Logic.I]. Qed.
+
+Theorem step_lab_inv : forall cache_on abs_fix r1 r2 r3 r4 s o,
+  lab_inv (st_core s) -> op_lab_ok o ->
+  lab_inv (st_core (fst (step cache_on abs_fix r1 r2 r3 r4 s o))).
+Proof.
+  intros cache_on abs_fix r1 r2 r3 r4 s o L Ok.
+  pose proof (step_core_inv cache_on abs_fix r1 r2 r3 r4 s o (proj1 L) (op_lab_ok_wf o Ok)) as I'.
+  destruct o; cbn [step] in *.
+  - destruct Ok as [O1 O2].
+    pose proof (sbc_lab_inv abs_fix (st_core s) (next_block (st_core s)) evs hint L O1 O2) as H.
+    destruct (set_block_core abs_fix (st_core s) (next_block (st_core s)) evs hint) as [[c' clr] e].
+    cbn [fst] in H. destruct e; cbn [fst st_core]; [exact H|].
+    apply (lab_inv_transfer c'); [exact I'|reflexivity|reflexivity|exact H].
+  - destruct Ok as [O1 O2].
+    pose proof (sbc_lab_inv abs_fix (st_core s) i evs hint L O1 O2) as H.
+    destruct (set_block_core abs_fix (st_core s) i evs hint) as [[c' clr] e].
+    cbn [fst] in H. destruct e; cbn [fst st_core]; [exact H|].
+    apply (lab_inv_transfer c'); [exact I'|reflexivity|reflexivity|exact H].
+  - pose proof (do_get_core cache_on s i) as H.
+    destruct (do_get cache_on s i) as [s' b]. cbn [fst] in *. rewrite H. exact L.
+  - pose proof (register_rf_lpart (st_core s) sids amp mag phase tshape delay freq phoff use) as P.
+    pose proof (register_rf_ext (st_core s) sids amp mag phase tshape delay freq phoff use) as E.
+    destruct (register_rf (st_core s) sids amp mag phase tshape delay freq phoff use) as [[[c' id] ids] clr].
+    cbn [fst st_core] in *. apply (lab_inv_transfer (st_core s)); assumption.
+  - pose proof (register_grad_lpart (st_core s) sids amp wshape tshape delay first last) as P.
+    pose proof (register_grad_ext (st_core s) sids amp wshape tshape delay first last) as E.
+    destruct (register_grad (st_core s) sids amp wshape tshape delay first last) as [[[c' id] ids] clr].
+    cbn [fst st_core] in *. apply (lab_inv_transfer (st_core s)); assumption.
+  - pose proof (register_trap_lpart (st_core s) amp rise flat fall delay) as P.
+    pose proof (register_trap_ext (st_core s) amp rise flat fall delay) as E.
+    destruct (register_trap (st_core s) amp rise flat fall delay) as [[c' id] clr].
+    cbn [fst st_core] in *. apply (lab_inv_transfer (st_core s)); assumption.
+  - pose proof (register_adc_lpart (st_core s) num dwell delay freq phoff dead) as P.
+    pose proof (register_adc_ext (st_core s) num dwell delay freq phoff dead) as E.
+    destruct (register_adc (st_core s) num dwell delay freq phoff dead) as [[c' id] clr].
+    cbn [fst st_core] in *. apply (lab_inv_transfer (st_core s)); assumption.
+  - (* RegLabel: one of the two label libraries grows by find_or_insert *)
+    destruct L as (I & W & K1 & K2 & K3 & X). destruct I as (I1 & I2 & I3 & I4 & I5 & I6 & I7 & I8).
+    unfold register_label in *. destruct is_set.
+    + pose proof (kfoi_keymap_consistent (lset_l (st_core s)) [value; zq lbl] 0 I5 K2) as [_ K2'].
+      destruct (kfoi (lset_l (st_core s)) [value; zq lbl] 0) as [[tl id] found]. cbn [fst snd st_core] in *.
+      split; [exact I'|]. repeat (split; try assumption); apply X.
+    + pose proof (kfoi_keymap_consistent (linc_l (st_core s)) [value; zq lbl] 0 I6 K3) as [_ K3'].
+      destruct (kfoi (linc_l (st_core s)) [value; zq lbl] 0) as [[tl id] found]. cbn [fst snd st_core] in *.
+      split; [exact I'|]. repeat (split; try assumption); apply X.
+  - destruct (dedup_core r1 r2 r3 r4 (st_core s)) as [c'|] eqn:E; cbn [fst st_core] in *; [|exact L].
+    apply (lab_inv_transfer (st_core s));
+      [exact I'|exact (dedup_core_ext _ _ _ _ _ _ E)|exact (dedup_core_lpart _ _ _ _ _ _ E)|exact L].
+  - cbn [fst]. exact L.
+  - cbn [fst]. rewrite touch_core. exact L.
+  - cbn [fst st_core]. exact Ok.
+Qed.
+
+Lemma run_lab_inv_gen cache_on abs_fix r1 r2 r3 r4 ops : forall s acc,
+  lab_inv (st_core s) -> Forall op_lab_ok ops ->
+  lab_inv (st_core (fst (fold_left (fun (acc : state * list out) o =>
+               let '(s', x) := step cache_on abs_fix r1 r2 r3 r4 (fst acc) o in (s', snd acc ++ [x]))
+               ops (s, acc)))).
+Proof.
+  induction ops as [|o r IH]; intros s acc L Ok; cbn [fold_left]; [exact L|].
+  inversion Ok as [|? ? Oo Or]. subst. cbn [fst snd].
+  pose proof (step_lab_inv cache_on abs_fix r1 r2 r3 r4 s o L Oo) as L'.
+  destruct (step cache_on abs_fix r1 r2 r3 r4 s o) as [s1 x1]. cbn [fst] in L'.
+  apply IH; assumption.
+Qed.
+
+Theorem run_lab_inv : forall cache_on abs_fix r1 r2 r3 r4 ops s0,
+  lab_inv (st_core s0) -> Forall op_lab_ok ops ->
+  lab_inv (st_core (fst (run cache_on abs_fix r1 r2 r3 r4 s0 ops))).
+Proof. intros. unfold run. apply run_lab_inv_gen; assumption. Qed.
+
+(* after ANY history (events by value; read() of well-formed stores), a successful add_block stores a
+   block whose extension chain decodes to a permutation of the label / trigger events handed over *)
+Theorem add_block_returns_extensions : forall cache_on abs_fix r1 r2 r3 r4 ops g sr sl e evs hint,
+  Forall op_lab_ok ops -> Forall ev_ok evs -> Forall ext_by_value evs ->
+  let s := fst (run cache_on abs_fix r1 r2 r3 r4 (mkState (core_init g sr sl e) []) ops) in
+  let res := step cache_on abs_fix r1 r2 r3 r4 s (AddBlock evs hint) in
+  snd res = ONone ->
+  exists ext, stored_ext (st_core (fst res)) (next_block (st_core s)) = Some ext /\
+              Permutation ext (flat_map ext_event_payload evs).
+Proof.
+  intros cache_on abs_fix r1 r2 r3 r4 ops g sr sl e evs hint Ok Oe Be. cbv zeta.
+  pose proof (run_lab_inv cache_on abs_fix r1 r2 r3 r4 ops (mkState (core_init g sr sl e) [])
+                (lab_inv_init g sr sl e) Ok) as L.
+  set (s := fst (run cache_on abs_fix r1 r2 r3 r4 (mkState (core_init g sr sl e) []) ops)) in *.
+  cbn [step].
+  destruct (set_block_core abs_fix (st_core s) (next_block (st_core s)) evs hint) as [[c' clr] eo] eqn:E.
+  destruct eo as [x|]; cbn [snd fst st_core]; [discriminate|]. intros _.
+  destruct (set_block_ext_roundtrip _ _ _ _ _ _ _ L Oe Be E) as (ext & S1 & S2).
+  exists ext. split; [|exact S2].
+  unfold stored_ext in *.
+  change (blocks (c' <| next_block := next_block c' + 1 |>)) with (blocks c').
+  destruct (aget Z.eqb (blocks c') (next_block (st_core s))) as [blk|]; [|discriminate].
+  change (ext_l (c' <| next_block := next_block c' + 1 |>)) with (ext_l c').
+  destruct (0 <? nth 6 blk 0); [|exact S1].
+  rewrite (dec_ext_cong c'); [exact S1|unfold same_libs; cbn; repeat split].
+Qed.
+
+(* ---- in terms of what the user sees: label operations and trigger rows ----------------------------------- *)
+Definition event_labels (evs : list mevent) : list lop :=
+  flat_map (fun e => match e with MLabel None s v l => [mkLop s l (qz v)] | _ => [] end) evs.
+Definition event_trigs (evs : list mevent) : list key :=
+  flat_map (fun e => match e with MCtl None t ch d du => [[zq t; zq ch; d; du]] | _ => [] end) evs.
+
+Lemma filter_map_app {A B} (f : A -> option B) l1 l2 : filter_map f (l1 ++ l2) = filter_map f l1 ++ filter_map f l2.
+Proof.
+  induction l1 as [|x r IH]; cbn; [reflexivity|]. destruct (f x); cbn; rewrite IH; reflexivity.
+Qed.
+
+Lemma filter_map_perm {A B} (f : A -> option B) l l' : Permutation l l' -> Permutation (filter_map f l) (filter_map f l').
+Proof.
+  induction 1 as [|x t t' P IH|x y t|l1 l2 l3 P1 IH1 P2 IH2]; cbn.
+  - constructor.
+  - destruct (f x); [constructor|]; exact IH.
+  - destruct (f y); destruct (f x); try apply perm_swap; apply Permutation_refl.
+  - eapply perm_trans; eassumption.
+Qed.
+
+Lemma payload_labels evs : filter_map lop_of_ext (flat_map ext_event_payload evs) = event_labels evs.
+Proof.
+  induction evs as [|e r IH]; [reflexivity|]. unfold event_labels in *. cbn [flat_map].
+  rewrite filter_map_app, IH. f_equal.
+  destruct e; try reflexivity; destruct id; try reflexivity.
+  destruct is_set; cbn; unfold knth; cbn [nth]; rewrite qz_zq; reflexivity.
+Qed.
+
+Lemma payload_trigs evs :
+  filter_map (fun x => if fst x =? XS_TRIGGERS then Some (snd x) else None) (flat_map ext_event_payload evs) = event_trigs evs.
+Proof.
+  induction evs as [|e r IH]; [reflexivity|]. unfold event_trigs in *. cbn [flat_map].
+  rewrite filter_map_app, IH. f_equal.
+  destruct e; try reflexivity; destruct id; try reflexivity. destruct is_set; reflexivity.
+Qed.
+
+Theorem ext_perm_labels_trigs : forall ext evs,
+  Permutation ext (flat_map ext_event_payload evs) ->
+  Permutation (labels_of_ext ext) (event_labels evs) /\ Permutation (trigs_of_ext ext) (event_trigs evs).
+Proof.
+  intros ext evs P. split.
+  - unfold labels_of_ext. eapply perm_trans; [apply Permutation_sym, Permutation_rev|].
+    rewrite <- payload_labels. apply filter_map_perm. exact P.
+  - unfold trigs_of_ext. rewrite <- payload_trigs. apply filter_map_perm. exact P.
+Qed.
+
+(* get_block's extension field is [stored_ext] *)
+Theorem decode_ext_is_stored : forall c i b, decode c i = Some b -> stored_ext c i = Some (d_ext b).
+Proof.
+  intros c i b H. unfold decode in H. unfold stored_ext.
+  destruct (aget Z.eqb (blocks c) i) as [ev|]; cbn [opt_bind] in H; [|discriminate].
+  destruct (dec_rf c (nth 1 ev 0)) as [rf|]; cbn [opt_bind] in H; [|discriminate].
+  destruct (dec_grad c (nth 2 ev 0)) as [gx|]; cbn [opt_bind] in H; [|discriminate].
+  destruct (dec_grad c (nth 3 ev 0)) as [gy|]; cbn [opt_bind] in H; [|discriminate].
+  destruct (dec_grad c (nth 4 ev 0)) as [gz|]; cbn [opt_bind] in H; [|discriminate].
+  destruct (dec_adc c (nth 5 ev 0)) as [adc|]; cbn [opt_bind] in H; [|discriminate].
+  destruct (if 0 <? nth 6 ev 0 then dec_ext c (S (length (ldata (ext_l c)))) (nth 6 ev 0) else Some []) as [ext|];
+    cbn [opt_bind] in H; [|discriminate].
+  destruct (aget Z.eqb (durs c) i) as [d|]; cbn [opt_bind] in H; [|discriminate].
+  inversion H. reflexivity.
+Qed.
+
+(* the statement of the property for one add_block, after any history: whenever get_block of the new
+   block succeeds, its labels and triggers are a permutation of the ones added *)
+Theorem add_block_get_block_labels_triggers : forall cache_on abs_fix r1 r2 r3 r4 ops g sr sl e evs hint b,
+  Forall op_lab_ok ops -> Forall ev_ok evs -> Forall ext_by_value evs ->
+  let s := fst (run cache_on abs_fix r1 r2 r3 r4 (mkState (core_init g sr sl e) []) ops) in
+  let res := step cache_on abs_fix r1 r2 r3 r4 s (AddBlock evs hint) in
+  snd res = ONone ->
+  decode (st_core (fst res)) (next_block (st_core s)) = Some b ->
+  Permutation (labels_of_ext (d_ext b)) (event_labels evs) /\
+  Permutation (trigs_of_ext (d_ext b)) (event_trigs evs).
+Proof.
+  intros cache_on abs_fix r1 r2 r3 r4 ops g sr sl e evs hint b Ok Oe Be. cbv zeta. intros Hn Hd.
+  destruct (add_block_returns_extensions cache_on abs_fix r1 r2 r3 r4 ops g sr sl e evs hint Ok Oe Be Hn)
+    as (ext & S1 & S2).
+  rewrite (decode_ext_is_stored _ _ _ Hd) in S1. inversion S1. subst ext.
+  apply ext_perm_labels_trigs. exact S2.
+Qed.
